@@ -556,12 +556,9 @@ func checkFirstMatch(p *Prog, ru *Rule, fr *ssa.Function) {
 		ru.Bad(c+":match", posOf(match), "the match result is discarded")
 		return
 	}
-	for _, ref := range *okV.Referrers() {
-		ifi, ok := ref.(*ssa.If)
-		if !ok {
-			continue
-		}
-		if nil != (reachQ{From: Loc{ifi.Block().Succs[0], -1}, Target: func(i ssa.Instruction) bool { return i == ssa.Instruction(match) }}).run() {
+	for _, bt := range boolTestsOf(fr, okV) {
+		ifi := bt.If
+		if nil != (reachQ{From: Loc{ifi.Block().Succs[bt.TrueSucc], -1}, Target: func(i ssa.Instruction) bool { return i == ssa.Instruction(match) }}).run() {
 			ru.Bad(c+":first-match-wins", posOf(ifi), "after a pattern matched the loop goes on matching: a later pattern overrides the first one")
 		} else {
 			ru.OK(c+":first-match-wins", posOf(ifi), "the loop is left on the first match")
